@@ -396,7 +396,134 @@ def c12(tier, seed):
     return pool_elem('C12', ['F1', 'V1', 'M1', 'N1', 'N2'] if tier == 'quick' else CORE)
 
 
-PLANS = {'C11': c11, 'C12': c12, 'C01': c01, 'C02': c02, 'C03': c03, 'C04': c04, 'C05': c05, 'C06': c06, 'C07': c07, 'C08': c08, 'C09': c09, 'C10': c10, 'C16': c16}
+def cmp_ob(prop, lid, part, domain=0, smax=None, kv=2):
+    d = [f'-DLIST={LISTS[lid]}', f'-DPART={part}', f'-DDOMAIN={domain}', f'-DKV={kv}']
+    if smax is not None: d.append(f'-DSMAX={smax}')
+    return dict(prop=prop, name=f"cmp/{lid}/part{part}/d{domain}", harness='h_cmp.cpp', defines=d, entry='h_entry', cfg=dict(slack='min', budget_s=1200), list=lid)
+
+
+def attribute_cmp(aid):
+    if aid == 9101: return 'C07'
+    return 'C13' if aid < 300 else 'C14'
+
+
+ATTR['h_cmp.cpp'] = attribute_cmp
+
+
+def c13(tier, seed):
+    lists = ['E1', 'E2', 'E3', 'E4', 'G1', 'G2', 'P2', 'V1'] + ([] if tier == 'quick' else ['E5', 'F2', 'M1', 'N1'])
+    obs = []
+    for lid in lists:
+        obs.append(cmp_ob('C13', lid, 1, smax=(1 if lid in TWO_SPAN else None)))
+        obs.append(cmp_ob('C13', lid, 2, smax=(1 if tier == 'quick' or lid in TWO_SPAN else None), kv=(2 if tier == 'quick' else 2)))
+    return obs
+
+
+def c14(tier, seed):
+    lists = ['E1', 'E3', 'E5', 'G1', 'G2'] + ([] if tier == 'quick' else ['E2', 'E4', 'P1', 'F1'])
+    obs = []
+    for lid in lists:
+        obs.append(cmp_ob('C14', lid, 3, domain=3, smax=1))
+        obs.append(cmp_ob('C14', lid, 4, domain=3, smax=1))
+        if tier == 'thorough':
+            obs.append(cmp_ob('C14', lid, 3, domain=0, smax=1))
+    return obs
+
+
+def attribute_exc(aid):
+    if aid in (9100, 297) or 9001 <= aid <= 9009: return 'C17'
+    if aid in (9101, 9201, 9210): return 'C17'
+    return 'C17'
+
+
+def attribute_empty(aid):
+    if aid == 9100 or 9001 <= aid <= 9009: return 'C06'
+    if aid == 9101: return 'C07'
+    loc = aid % 100
+    if loc == 96: return 'C03'
+    if loc == 97: return 'C06'
+    if loc == 98: return 'C04'
+    return 'C18'
+
+
+def attribute_const(aid):
+    if aid == 9100 or 9001 <= aid <= 9009: return 'C06'
+    if aid == 9101: return 'C07'
+    return 'C19'
+
+
+def attribute_emplace(aid):
+    if aid == 9101: return 'C07'
+    return 'C15'
+
+
+ATTR['h_exc.cpp'] = attribute_exc
+ATTR['h_empty.cpp'] = attribute_empty
+ATTR['h_const.cpp'] = attribute_const
+ATTR['h_emplace.cpp'] = attribute_emplace
+
+EXC_OPS = ['OP_CONSTRUCT', 'OP_RESERVE', 'OP_COPY_CTOR', 'OP_COPY_ASSIGN', 'OP_MOVE_ASSIGN', 'OP_ELEM_CTOR', 'OP_ELEM_ASSIGN']
+
+
+def exc_ob(lid, op, akind, fl, eq):
+    d = [f'-DLIST={LISTS[lid]}', f'-DOP={op}', f'-DAFLAGS=({fl})', f'-DEQ_IDS={eq}']
+    if lid in TWO_SPAN: d.append('-DSMAX=1')
+    return dict(prop='C17', name=f"exc/{lid}/{akind}/{op[3:].lower()}", harness='h_exc.cpp', defines=d, entry='h_entry', exceptions=True,
+                cfg=dict(slack='min', budget_s=900), list=lid, owner='C17')
+
+
+def c17(tier, seed):
+    obs = []
+    lists = ['F1', 'V1', 'N1', 'N2'] + ([] if tier == 'quick' else ['P2', 'M1', 'N3', 'V2'])
+    kinds = [('st-ne', '0', 0), ('st-eq', '0', 1), ('ae', 'AF_ALWAYS_EQUAL', 0), ('prop-ne', 'AF_POCCA|AF_POCMA|AF_POCS', 0)]
+    if tier == 'thorough':
+        kinds += [('pocca-ne', 'AF_POCCA', 0), ('pocma-ne', 'AF_POCMA', 0), ('prop-eq', 'AF_POCCA|AF_POCMA|AF_POCS', 1), ('soccc-ne', 'AF_SOCCC', 0)]
+    for lid in lists:
+        for ak, fl, eq in kinds:
+            for op in EXC_OPS:
+                if eq and op in ('OP_CONSTRUCT', 'OP_RESERVE', 'OP_COPY_CTOR', 'OP_ELEM_CTOR'): continue
+                obs.append(exc_ob(lid, op, ak, fl, eq))
+    return obs
+
+
+def c18(tier, seed):
+    obs = []
+    for lid in CORE:
+        d = [f'-DLIST={LISTS[lid]}'] + (['-DSMAX=1'] if lid in TWO_SPAN else [])
+        obs.append(dict(prop='C18', name=f"empty/{lid}", harness='h_empty.cpp', defines=d, entry='h_entry', cfg=dict(slack='min', budget_s=900), list=lid))
+    obs += pool_seq('C18', ['P1', 'F1', 'V1', 'V3', 'N1', 'N2'] if tier == 'quick' else CORE, tier, ops_filter=['OP_CLEAR', 'OP_ERASE_RANGE', 'OP_POP', 'OP_ERASE'])
+    obs += [cmp_ob('C18', lid, 2, smax=1) for lid in (['E1', 'G2'] if tier == 'quick' else ['E1', 'E4', 'G1', 'G2', 'V1'])]
+    return obs
+
+
+def c19(tier, seed):
+    obs = []
+    for lid in CORE:
+        d = [f'-DLIST={LISTS[lid]}', f"-DK0={2 if tier == 'quick' or lid in TWO_SPAN else 3}"] + (['-DSMAX=1'] if lid in TWO_SPAN else [])
+        obs.append(dict(prop='C19', name=f"const/{lid}", harness='h_const.cpp', defines=d, entry='h_entry', cfg=dict(slack='min', budget_s=900), list=lid))
+    return obs
+
+
+EMPLACE_PAIRS = {1: 'u32->u32', 2: 'i32->u32', 3: 'u8->bool', 4: 'bool->u8', 5: 'ToColor->enum', 6: 'i32->float', 7: 'u64->double', 8: 'i32->W(int)',
+                 9: 'Ms->Tm (move counting)', 10: 'u16->i32', 11: 'i32->u8', 12: 'float->float'}
+EMPLACE_FORMS = {1: 'contiguous lvalue', 2: 'contiguous const lvalue', 3: 'contiguous rvalue', 4: 'C array', 5: 'std::array', 6: 'node range lvalue',
+                 7: 'node range rvalue', 8: 'generated range', 9: 'pointer', 10: 'move_iterator', 11: 'forward iterator', 12: 'generated iterator'}
+
+
+def c15(tier, seed):
+    obs = []
+    for pair in EMPLACE_PAIRS:
+        for form in EMPLACE_FORMS:
+            for varying in (0, 1):
+                if varying and form >= 9: continue      # a VaryingSize argument must be a range
+                if tier == 'quick' and varying and pair not in (1, 3, 8, 9): continue
+                d = [f'-DPAIR={pair}', f'-DFORM={form}', f'-DVARYING={varying}']
+                obs.append(dict(prop='C15', name=f"emplace/p{pair}/f{form}/{'vary' if varying else 'fixed'}", harness='h_emplace.cpp', defines=d, entry='h_entry',
+                                cfg=dict(slack='min', budget_s=600)))
+    return obs
+
+
+PLANS = {'C15': c15, 'C17': c17, 'C18': c18, 'C19': c19, 'C13': c13, 'C14': c14, 'C11': c11, 'C12': c12, 'C01': c01, 'C02': c02, 'C03': c03, 'C04': c04, 'C05': c05, 'C06': c06, 'C07': c07, 'C08': c08, 'C09': c09, 'C10': c10, 'C16': c16}
 
 
 def obligations(prop, tier, seed):
